@@ -1,7 +1,7 @@
 #!/bin/bash
 # dev helper: generate N scenarios per family with seed S, run them, validate with TLC, summarise clause hits
 S=${1:-1}; N=${2:-200}; BIN=${3:-/verif/_work/bin/simrun_gen}
-D=/tmp/t; mkdir -p $D
+D=${DEVLOOP_DIR:-/tmp/t}; mkdir -p $D
 cd /verif/spec
 for f in send recv lifecycle connect caps keepalive; do
   ( python3 /verif/tools/gen.py $f $S $N > $D/s_$f.ndjson
@@ -11,7 +11,7 @@ for f in send recv lifecycle connect caps keepalive; do
 done
 wait
 for f in send recv lifecycle connect caps keepalive; do
-  echo "== $f: $(cat $D/r_$f.txt) $(grep -E 'states generated' $D/o_$f.txt | cut -d' ' -f1-3)"
+  echo "== $f: $(cat $D/r_$f.txt | tr '\n' ' ') $(grep -E 'states generated' $D/o_$f.txt | cut -d' ' -f1-3)"
   grep -E "REJECT|rror|xception" $D/o_$f.txt | head -5
-  grep "VIOL " $D/o_$f.txt | tr -d "\"" | cut -d" " -f4 | sort | uniq -c | sort -rn | head -20
+  grep "VIOL " $D/o_$f.txt | tr -d '"' | cut -d' ' -f4 | sort | uniq -c | sort -rn | head -20
 done
